@@ -57,6 +57,7 @@ CROk == {"ok"}
 CRAll == {"ok", "timeout", "relay", "other"}
 CROkRelay == {"ok", "relay"}
 CRNoTO == {"ok", "relay", "other"}
+CRTO == {"ok", "timeout", "relay"}
 SRAll == {"relay", "timeout", "other"}
 SRTimeout == {"timeout"}
 HResp == {"resp"}
